@@ -195,7 +195,17 @@ impl<'a> Matcher<'a> {
                 }
             },
             Tok::Class { neg, items } => {
-                if p < len && class_matches(*neg, items, path[p]) {
+                // A class with a range written backwards (`[b-a]`) is not defined by the
+                // documentation: strictly it matches nothing, leniently any one character.
+                let backwards = items.iter().any(|i| matches!(i, Item::Range(a, b) if a > b));
+                let ok = p < len
+                    && if backwards {
+                        self.lenient && path[p] != '/'
+                    }
+                    else {
+                        class_matches(*neg, items, path[p])
+                    };
+                if ok {
                     out.insert(p + 1);
                 }
             },
